@@ -107,11 +107,13 @@ Proof.
   intros m a H. destruct a; try discriminate; simpl.
   - split; [apply sweeping_obs_rec | apply sweeping_meta_pres].
   - split; [apply random_obs_rec | apply random_meta_pres].
-  - split.
-    + apply evolution_obs_rec with (V := unit) (vis := fun g => g).
-      * intros pop g1 g2 step E. subst. auto.
-      * intros pop [] ngen np. simpl. reflexivity.
-    + apply evolution_meta_pres.
+  - destruct u; (split; [|apply evolution_meta_pres]);
+      try (apply evolution_obs_rec with (V := unit) (vis := fun g => g);
+           [intros pop g1 g2 step E; subst; auto | intros pop [] ngen np; simpl; reflexivity]).
+    (* NSGA2: the update reads the elites, reproduction only moves the cursor *)
+    apply evolution_obs_rec with (V := list dna) (vis := fst).
+    + intros pop g1 g2 step E. unfold nsga2_updf. rewrite E. destruct (n <=? length pop); simpl; auto.
+    + intros pop g ngen np. reflexivity.
 Qed.
 
 Theorem recover_observable : forall m a rw evs, recoverable a = true ->
@@ -165,18 +167,18 @@ Proof.
 Qed.
 
 (* Evolution with arbitrary initialiser, reproduction and update operators over an arbitrary global state *)
-Theorem evolution_any_operators : forall gi size G g0 repro updf (V : Type) (vis : G -> V) rw evs,
+Theorem evolution_any_operators : forall gi size G g0 repro updf gobs (V : Type) (vis : G -> V) rw evs,
   (forall pop g1 g2 step, vis g1 = vis g2 ->
      fst (updf pop g1 step) = fst (updf pop g2 step) /\ vis (snd (updf pop g1 step)) = vis (snd (updf pop g2 step))) ->
   (forall pop g ngen np, vis (snd (repro pop g ngen np)) = vis g) ->
-  let g := Evolution gi size G g0 repro updf in
+  let g := Evolution gi size G g0 repro updf gobs in
   let r := run_events g rw evs in
   r_ok g r = true ->
   pview (obs g (recovered g (r_hist g r))) = pview (obs g (r_st g r)).
 Proof.
-  intros gi size G g0 repro updf V vis rw evs Hu Hr g r Hok.
+  intros gi size G g0 repro updf gobs V vis rw evs Hu Hr g r Hok.
   destruct (run_reach g rw anyfed (fun _ => I) evs Hok) as (HR & _).
-  exact (evolution_obs_rec gi size G g0 repro updf V vis Hu Hr _ _ HR _ (HRw_refl _)).
+  exact (evolution_obs_rec gi size G g0 repro updf gobs V vis Hu Hr _ _ HR _ (HRw_refl _)).
 Qed.
 
 (* the counters after recovery, spelled out *)
@@ -364,3 +366,46 @@ Definition strip_fed (e : hentry) : hentry :=
 Definition ex_hist : list hentry := r_hist _ (run_events (denote 3 ex_alg) ex_rw ex_events).
 Example ex_stored_proposals : hrk_b ex_hist (map strip_fed ex_hist) = true /\ map strip_fed ex_hist <> ex_hist.
 Proof. vm_compute. split; [reflexivity | discriminate]. Qed.
+
+(* ---------------------------------------------------------------------------------------------- *)
+(* NSGA2 with its own operators (nondominated sort, crowding distance, elites, next_elite cursor; any mutator):
+   besides counters and population (recover_observable), the elites are recovered *)
+Theorem nsga2_elites_recovered : forall m i sz n t rw evs,
+  let g := denote m (AEvo i sz (UNsga2 n) t) in
+  let r := run_events g rw evs in
+  r_ok g r = true ->
+  fst (ev_g _ _ (recovered g (r_hist g r))) = fst (ev_g _ _ (r_st g r)).
+Proof.
+  intros m i sz n t rw evs g r Hok. unfold recovered.
+  destruct (run_reach g rw anyfed (fun _ => I) evs Hok) as (HR & _).
+  refine (evolution_vis_rec (denote m i) sz nsga_g ([], 0) (nsga2_repro t) (nsga2_updf n) nsga_gobs (list dna) fst _ _ _ _ HR _ (HRw_refl _)).
+  - intros pop g1 g2 step E. unfold nsga2_updf. rewrite E. destruct (n <=? length pop); simpl; auto.
+  - intros pop g' ngen np. reflexivity.
+Qed.
+
+(* an update whose population output does not look at the global state (NEAT: keep the newest generation, then
+   speciate — any speciation over any state): no hypothesis on the operators is left *)
+Theorem evolution_stateless_population : forall gi size G g0 repro (popf : list dna -> nat -> list dna)
+    (gf : list dna -> G -> nat -> G) gobs rw evs,
+  let g := Evolution gi size G g0 repro (fun pop st step => (popf pop step, gf pop st step)) gobs in
+  let r := run_events g rw evs in
+  r_ok g r = true ->
+  pview (obs g (recovered g (r_hist g r))) = pview (obs g (r_st g r)).
+Proof.
+  intros. apply evolution_any_operators with (V := unit) (vis := fun _ => tt); auto.
+Qed.
+
+Theorem neat_any_speciation : forall gi size G g0 repro (speciate : list dna -> G -> nat -> G) gobs rw evs,
+  let g := Evolution gi size G g0 repro (fun pop st step => (apply_upd UTopGen pop step, speciate pop st step)) gobs in
+  let r := run_events g rw evs in
+  r_ok g r = true ->
+  pview (obs g (recovered g (r_hist g r))) = pview (obs g (r_st g r)).
+Proof. intros. apply evolution_stateless_population. assumption. Qed.
+
+(* non-vacuity: an NSGA2 run in the model with two fronts among the elites *)
+Definition ex_nsga : alg := AEvo (ARand true [0; 1; 2; 3; 0; 1]%Z) (Some 4) (UNsga2 2) [[1]; [2]; [3]]%Z.
+Example ex_nsga_run :
+  let g := denote 4 ex_nsga in
+  let r := run_events g (fun v => nth (Z.to_nat v) [2; 65; 128; 64]%Z 0%Z) [0; 1; 0; 1; 0; 1; 0; 1; 0; 1; 0]%Z in
+  r_ok g r = true /\ length (fst (ev_g _ _ (r_st g r))) = 2%nat.
+Proof. vm_compute. auto. Qed.
